@@ -159,6 +159,34 @@ static void seek_back_verify(const bytes &img, const bytes &later_key, const byt
   close(fd);
 }
 
+// one process, two readers one after the other: the intact file is opened with verification, the block that will be damaged is
+// fetched (it is the last block this process verified), the reader is destroyed; then the damaged copy - same length, so its
+// mapping usually lands at the same address - is opened with verification and the same block is the first one fetched.
+// Whatever the first reader verified says nothing about the second file.  Lines: "e ..." per entry, "SECOND" before the
+// second reader, "END".
+static void reopen_verify(const bytes &good, const bytes &bad, const bytes &key, int out_fd) {
+  for (int round = 0; round < 2; round++) {
+    int fd = fd_from_bytes(round == 0 ? good : bad);
+    struct mtbl_reader *rd = open_reader_fd(fd, true);
+    if (round == 1) write_all_fd(out_fd, "SECOND\n");
+    if (!rd) {
+      write_all_fd(out_fd, "NULLREADER\n");
+      close(fd);
+      if (round == 0) continue;
+      return;
+    }
+    struct mtbl_iter *it = mtbl_source_get(mtbl_reader_source(rd), U(key), key.size());
+    const uint8_t *k, *v;
+    size_t lk, lv;
+    while (it && mtbl_iter_next(it, &k, &lk, &v, &lv) == mtbl_res_success)
+      write_all_fd(out_fd, "e " + hex(bytes((const char *)k, lk)) + " " + hex(bytes((const char *)v, lv)) + "\n");
+    if (it) mtbl_iter_destroy(&it);
+    mtbl_reader_destroy(&rd);
+    close(fd);
+  }
+  write_all_fd(out_fd, "END\n");
+}
+
 static std::string judge_drain(const ChildRun &cr, const KVs &orig, size_t allowed, const char *what) {
   if (cr.timed_out) return std::string(what) + ": timed out";
   if (cr.sanitizer()) return std::string(what) + ": sanitizer report: " + cr.describe();
@@ -236,6 +264,24 @@ static Result run_case(const Case &c) {
         r.failf("an iterator seeked back into the damaged block and the process did not stop [%s]", what.c_str());
     }
     r.tag("seek_back_into_damaged_block");
+  }
+  // (f) the damaged file read by a process that has just read (and verified) the intact one
+  if (!r.fail && tb < nb) {
+    const ref::DBlock &dmg = df.data[(size_t)tb];
+    bytes key = dmg.entries[dmg.entries.size() / 2].key;
+    ChildRun c7 = run_child([&](int fd) { reopen_verify(img, bad, key, fd); });
+    size_t sp = c7.payload.find("SECOND");
+    std::string after = sp == std::string::npos ? std::string() : c7.payload.substr(sp);
+    if (c7.sanitizer()) r.failf("intact reader then damaged reader in one process: sanitizer report: %s", c7.describe().c_str());
+    else if (sp == std::string::npos) r.failf("reading the INTACT file with verify_checksums stopped the process (%s)", c7.describe().c_str());
+    else if (after.find("NULLREADER") == std::string::npos) {
+      if (after.find("\ne ") != std::string::npos)
+        r.failf("a process that had verified the intact file, destroyed that reader and then opened the damaged copy with verify_checksums got an entry of the damaged block (key %s) [%s]",
+                show(key).c_str(), what.c_str());
+      else if (c7.clean() || after.find("END") != std::string::npos)
+        r.failf("a process that had verified the intact file and then fetched the damaged block of the damaged copy did not stop [%s]", what.c_str());
+    }
+    r.tag("damaged_copy_after_intact_reader_in_one_process");
   }
   // (a) mtbl_verify
   if (!r.fail) {
